@@ -377,7 +377,7 @@ class _Parser:
             if v == "(":
                 self.i += 1
                 e = ("call", e, self.args(")"))
-            elif v == "{" and e[0] == "name" and "<" in e[1]:
+            elif v == "{" and e[0] == "name":
                 self.i += 1
                 e = ("call", e, self.args("}"))
             elif v == "[":
@@ -590,10 +590,12 @@ def _names(n):
 class _State:
     def __init__(self, env):
         self.env, self.effects, self.conds, self.ret, self.done, self.threw = dict(env), [], [], None, False, False
+        self.checks = []
 
     def copy(self):
         s = _State(self.env)
         s.effects, s.conds, s.ret, s.done, s.threw = list(self.effects), list(self.conds), self.ret, self.done, self.threw
+        s.checks = list(self.checks)
         return s
 
 
@@ -666,9 +668,18 @@ class Exec:
                     self.err("side effect on the right of %s" % op)
                 a, b = self.num(self.ev(n[2]), op), self.num(self.ev(n[3]), op)
                 return "(%s %s %s)" % (a, op, b)
-            a, b = self.ev(n[2]), self.ev(n[3])
             if _impure(n[2]) and _impure(n[3]):
                 self.err("two operands with side effects (unsequenced)")
+            for x, y in ((n[2], n[3]), (n[3], n[2])):
+                if _impure(x) and (self.assigned_in(x) & _names(y)):
+                    self.err("an operand reads what the other operand changes (unsequenced)")
+            a, b = self.ev(n[2]), self.ev(n[3])
+            if op == "-" and isinstance(a, tuple) and a[0] in ("storit", "chunkit") and isinstance(b, str):
+                return (a[0], "(%s - %s)" % (a[1], b))
+            if op == "+" and isinstance(a, tuple) and a[0] == "storit" and isinstance(b, str):
+                return ("storit", b if a[1] == "0" else "(%s + %s)" % (a[1], b))
+            if op == "+" and isinstance(b, tuple) and b[0] == "storit" and isinstance(a, str):
+                return ("storit", a if b[1] == "0" else "(%s + %s)" % (a, b[1]))
             if op == "+" and isinstance(a, tuple) and a[0] == "chunkit" and isinstance(b, str):
                 return ("chunkit", b if a[1] == "0" else "(%s + %s)" % (a[1], b))
             if op == "+" and isinstance(b, tuple) and b[0] == "chunkit" and isinstance(a, str):
@@ -686,6 +697,8 @@ class Exec:
                     return ("self",)
                 if isinstance(v, tuple) and v[0] == "chunkptr":
                     return ("chunkobj", v[1])
+                if isinstance(v, tuple) and v[0] == "storit":
+                    return ("slot", v[1])
                 self.err("dereference outside the grammar")
             v = self.num(self.ev(n[2]), n[1])
             if n[1] == "!":
@@ -712,6 +725,11 @@ class Exec:
                 self.put(key, rhs)
                 return rhs
             tgt = self.ev(n[2])
+            if isinstance(tgt, tuple) and tgt[0] == "slot" and n[1] == "=":
+                if self.ev(n[3]) != ("entry",):
+                    self.err("slot written with something other than the argument")
+                self.st.effects.append(("slotwrite", tgt[1]))
+                return tgt
             if isinstance(tgt, tuple) and tgt[0] == "elemref" and n[1] == "=":
                 rhs = self.ev(n[3])
                 if rhs != ("entry",):
@@ -732,6 +750,10 @@ class Exec:
             ix = self.num(self.ev(n[2]), "subscript")
             if base == ("chunks",):
                 return ("chunkptr", ix)
+            if base == ("storage",):
+                return ("slot", ix)
+            if isinstance(base, tuple) and base[0] == "storit":
+                return ("slot", "(%s + %s)" % (base[1], ix))
             if isinstance(base, tuple) and base[0] == "chunkobj":
                 return ("chunkelem", base[1], ix)
             if isinstance(base, tuple) and base[0] == "chunkit":
@@ -741,8 +763,20 @@ class Exec:
             return self.call(n)
         self.err("expression outside the grammar: %r" % (n,))
 
+    def assigned_in(self, n):
+        return set(self.lname(x[2]) for x in _walk(n) if x and x[0] in ("assign", "pre", "post")) - {None}
+
     def call(self, n):
         f, args = n[1], n[2]
+        if sum(1 for a in args if _impure(a)) > 1:
+            self.err("several call arguments with side effects (unsequenced)")
+        own = None
+        if f[0] == "name":
+            own = f[1]
+        elif f[0] == "mem" and ((f[1] == ("name", "this") and f[2] == "->") or (f[1] == ("un", "*", ("name", "this")) and f[2] == ".")):
+            own = f[3]
+        if own in self.own:
+            return self.own[own](self, args)
         if f[0] == "name":
             nm = f[1]
             if nm in ("assert", "DUNE_ASSERT_BOUNDS"):
@@ -769,6 +803,22 @@ class Exec:
                     self.err("std::copy_n over something other than chunks_ iterators")
                 self.st.effects.append(("copy", a[1], "(%s + %s)" % (a[1], cnt), c[1]))
                 return ("void",)
+            if nm in ("std::fill", "std::fill_n") and len(args) == 3 and self.indexed_loops:
+                a, b, v = self.ev(args[0]), self.ev(args[1]), self.ev(args[2])
+                if v != ("entry",) or not (isinstance(a, tuple) and a[0] == "storit"):
+                    self.err("std::fill outside the grammar")
+                if nm == "std::fill":
+                    if not (isinstance(b, tuple) and b[0] == "storit"):
+                        self.err("std::fill outside the grammar")
+                    cnt = b[1] if a[1] == "0" else "(%s - %s)" % (b[1], a[1])
+                else:
+                    cnt = self.num(b, "fill_n")
+                self.st.effects.append(("fill", cnt, "i" if a[1] == "0" else "(%s + i)" % a[1]))
+                return ("void",)
+            if nm == "std::move" and len(args) == 1:
+                v = self.ev(args[0])
+                if v == ("entry",):
+                    return v
             if nm in ("std::next", "std::begin", "std::cbegin") and args:
                 a = self.ev(args[0])
                 if nm == "std::next" and isinstance(a, tuple) and a[0] == "chunkit" and len(args) == 2:
@@ -789,6 +839,10 @@ class Exec:
             if key == "elementAt" and len(args) == 1 and (self.own_element_at or f[1] == ("name", "list_")):
                 return ("elemref", self.num(self.ev(args[0]), "elementAt"))
             base = self.ev(f[1])
+            if base == ("storage",) and meth in ("begin", "cbegin") and f[2] == "." and not args:
+                return ("storit", "0")
+            if base == ("storage",) and meth == "at" and f[2] == "." and len(args) == 1:
+                self.err("storage_.at() (throws on its own) is outside the grammar")
             if base == ("chunks",):
                 if meth in ("begin", "cbegin") and not args:
                     return ("chunkit", "0")
@@ -819,8 +873,10 @@ class Exec:
         self.err("call outside the grammar")
 
     own_element_at = False
+    indexed_loops = False
     prims = {}
     readonly = ()
+    own = {}        # calls of the class's own (translated or trusted) functions: name -> handler(executor, argument ASTs)
 
     # ---- statements ----
     def run(self, items):
@@ -882,6 +938,8 @@ class Exec:
             return self.stmt(s[2], a) + self.stmt(s[3], b)
         if k == "for":
             return self.loop(s, st)
+        if k == "while":
+            return self.wloop(s, st)
         self.err("statement outside the grammar: %s" % k)
 
     def loop(self, s, st):
@@ -894,7 +952,8 @@ class Exec:
             self.err("loop counter %r shadows a known name" % v)
         if not re.fullmatch(r"(?:std::)?(?:size_t|size_type)", init[1]):
             self.err("loop counter of type %r" % init[1])
-        if v in _names(body):
+        indexed = v in _names(body)
+        if indexed and not self.indexed_loops:
             self.err("the loop body uses the counter %r" % v)
         if c[0] != "bin" or c[1] not in ("<", ">", "!="):
             self.err("loop condition outside the grammar")
@@ -921,6 +980,58 @@ class Exec:
         if op == "!=" and lo != "0":
             self.err("`!=` loop whose lower end is not the literal 0 (may not terminate)")
         count = hi if lo == "0" else "(%s - %s)" % (hi, lo)
+        if indexed:
+            # the body is executed for counter = 0, 1, ..., count-1 in this order: one symbolic round with the counter `i`
+            if not up or lo != "0":
+                self.err("a loop that uses its counter must count up from 0")
+            if self.assigned_in(body):
+                self.err("a loop that uses its counter changes a variable")
+            probe = st.copy()
+            probe.effects = []
+            probe.env[v] = "i"
+            outs = self.stmt(body, probe)
+            self.st = st
+            if len(outs) != 1 or outs[0].done or len(outs[0].effects) != 1 or outs[0].effects[0][0] != "slotwrite" or outs[0].checks != st.checks:
+                self.err("indexed loop body outside the grammar")
+            st.effects.append(("fill", count, outs[0].effects[0][1]))
+            return [st]
+        return self.repeat(body, count, st)
+
+    def wloop(self, s, st):
+        """`while` loops that count a local down to zero: `while(v-- > 0) body`, `while(v--) body`, `while(v != 0) { body; --v; }`"""
+        _, c, body = s
+        dec_in_cond = False
+        if c[0] == "bin" and c[1] in (">", "!=") and c[3] == ("num", "0"):
+            t = c[2]
+        elif c[0] == "bin" and c[1] in ("<", "!=") and c[2] == ("num", "0"):
+            t = c[3]
+        else:
+            t = c
+        if t[0] == "post" and t[1] == "--" and t[2][0] == "name":
+            v, dec_in_cond = t[2][1], True
+        elif t[0] == "name" and t is not c:
+            v = t[1]
+        else:
+            self.err("while condition outside the grammar")
+        if v not in st.env or v in self.env0:
+            self.err("while loop counts something that is not a local")
+        if not dec_in_cond:
+            items = body[1] if body[0] == "block" else [body]
+            decs = (("expr", ("pre", "--", ("name", v))), ("expr", ("post", "--", ("name", v))), ("expr", ("assign", "-=", ("name", v), ("num", "1"))))
+            if not items or items[-1] not in decs:
+                self.err("while loop body does not end with the decrement of its counter")
+            body = ("block", items[:-1])
+        if v in _names(body):
+            self.err("the loop body uses the counter %r" % v)
+        count = self.num(st.env[v], "loop count")
+        out = self.repeat(body, count, st)
+        # `while(v--)` leaves the counter wrapped around, `while(v != 0) {..; --v;}` leaves 0
+        st.env[v] = None if dec_in_cond else "0"
+        return out
+
+    def repeat(self, body, count, st):
+        """the statement `body` executed `count` times (count is a Lean expression fixed on entry)"""
+        assigned = set(self.lname(x[2]) for x in _walk(body) if x and x[0] in ("assign", "pre", "post"))
         # one symbolic round of the body: which locals change how, and which effects happen
         changed = sorted(x for x in assigned if x is not None)
         for x in changed:
@@ -1205,13 +1316,25 @@ def _bitsetvector(repo, out):
     cls = src[k:]
     # getBit (2)
     bodies = _find_bodies(cls, r"typename\s+std::vector<bool>::(?:const_)?reference\s+getBit\s*\(\s*size_type\s+(\w+)\s*,\s*size_type\s+(\w+)\s*\)\s*(?:const)?", "BitSetVector::getBit", 2)
+    def _bit(ex, args):
+        if len(args) != 1:
+            ex.err("operator[] with %d arguments" % len(args))
+        return ("bit", ex.num(ex.ev(args[0]), "bit index"))
+
+    def _bvsize(ex, args):
+        # size() is read as what its own translation (bvSize, tied below) says
+        return "(%s / %s)" % (ex.get("len__"), ex.get("block_size"))
     for (m, body), suf in zip(bodies, ("", "C")):
-        r = _single_return(body, "BitSetVector::getBit")
-        mm = re.fullmatch(r"BlocklessBaseClass::operator\[\]\s*\((.+)\)", r, flags=re.S)
-        if not mm:
-            raise TranslateError("BitSetVector::getBit: return expression outside the grammar: %r" % r)
-        sy = Sym("BitSetVector::getBit", {m.group(1): "i", m.group(2): "j", "block_size": "B"})
-        out.append(_defn("bvAddr" + suf, [("B", nat), ("i", nat), ("j", nat)], nat, sy.expr(mm.group(1)),
+        e = {m.group(1): "i", m.group(2): "j", "block_size": "B", "len__": "len__"}
+        paths = _run("BitSetVector::getBit", body, e, readonly=tuple(e),
+                     own={"BlocklessBaseClass::operator[]": _bit, "DUNE_ASSERT_BOUNDS": lambda ex, a: ("void",) if len(a) == 1 and not _impure(a[0]) else ex.err("assert with a side effect"),
+                          "size": _bvsize})
+        if any(p.effects for p in paths):
+            raise TranslateError("BitSetVector::getBit: effect outside the grammar")
+        v, = _ret(paths, "BitSetVector::getBit", "bit", 1)
+        if "len__" in v:
+            raise TranslateError("BitSetVector::getBit: the address depends on the size")
+        out.append(_defn("bvAddr" + suf, [("B", nat), ("i", nat), ("j", nat)], nat, v,
                          "BitSetVector::getBit(i,j)%s: index into the vector<bool>" % (" const" if suf else "")))
     # constructors (n), (n,v), resize, size, the vector<bool> constructor's test
     m = re.search(r"explicit\s+BitSetVector\s*\(\s*int\s+(\w+)\s*\)\s*:\s*BlocklessBaseClass\s*\(([^,()]+)\)\s*\{\s*\}", cls)
@@ -1304,54 +1427,120 @@ def _reservedvector(repo, out):
                 rest.append(st)
         return checks, rest
 
+    # ---- round five: the functions below are symbolically executed (class Exec), not pattern matched ----
+    def _noargs(f):
+        def h(ex, args):
+            if args:
+                ex.err("unexpected arguments")
+            return f(ex)
+        return h
+
+    def _check(ex, args):
+        if len(args) != 1 or _impure(args[0]):
+            ex.err("CHECKSIZE with a side effect")
+        ex.st.checks.append(ex.num(ex.ev(args[0]), "CHECKSIZE"))
+        return ("void",)
+
+    def _rev(ex, args):
+        v = ex.ev(args[0]) if len(args) == 1 else None
+        if not (isinstance(v, tuple) and v[0] == "storit"):
+            ex.err("reverse_iterator over something other than a storage_ iterator")
+        return v
+
+    # calls of the class's own nullary accessors are inlined: the callee's body is executed on the caller's current state
+    # (all overloads of the name must give the same value, since the translator does not track constness of the caller)
+    active = set()
+
+    def inline(name, count):
+        def h(ex, args):
+            if args:
+                ex.err("%s() called with arguments" % name)
+            if name in active:
+                ex.err("recursive call of %s()" % name)
+            active.add(name)
+            try:
+                vals = []
+                for (m, body) in bodies(name, r"", count, name):
+                    sub = {"size_": ex.st.env["size_"], "n": ex.st.env["n"], "storage_": ("storage",)}
+                    paths = _run("ReservedVector::%s (inlined)" % name, body, sub, own=rv_own, readonly=tuple(sub))
+                    if any(p.effects or p.checks or p.threw or not p.done for p in paths):
+                        ex.err("inlined %s() has an effect / a check / no value" % name)
+                    rets = [p.ret for p in paths]
+                    if all(isinstance(r, str) for r in rets):
+                        vals.append(_tree(paths, lambda p: p.ret))
+                    elif all(r == rets[0] for r in rets):
+                        vals.append(rets[0])
+                    else:
+                        ex.err("the value of inlined %s() cannot be merged" % name)
+            finally:
+                active.discard(name)
+            if any(v != vals[0] for v in vals):
+                ex.err("the overloads of %s() differ" % name)
+            return vals[0]
+        return h
+
+    rv_own = {"size": inline("size", 1), "empty": inline("empty", 1), "capacity": inline("capacity", 1), "max_size": inline("max_size", 1),
+              "begin": inline("begin", 2), "cbegin": inline("cbegin", 1), "end": inline("end", 2), "cend": inline("cend", 1),
+              "CHECKSIZE": _check, "reverse_iterator": _rev, "const_reverse_iterator": _rev}
+
+    def rv_run(what, body, extra=None, writable=("size_",)):
+        e = env(extra)
+        e["storage_"] = ("storage",)
+        return _run("ReservedVector::" + what, body, e, own=rv_own, readonly=tuple(k for k in e if k not in writable))
+
+    def rv_pure(what, body, extra=None):
+        paths = rv_run(what, body, extra, writable=())
+        if any(p.effects for p in paths):
+            raise TranslateError("ReservedVector::%s: effect outside the grammar" % what)
+        return paths
+
     def accessor(name_re, args_re, lean, what, has_i):
         for (m, body), suf in zip(bodies(name_re, args_re, 2, what), ("", "C")):
-            e = env({m.group(1): "i"} if has_i else None)
-            checks, rest = split_checks(body, what, e)
-            if len(rest) != 1 or len(checks) != 1:
-                raise TranslateError("ReservedVector::%s: expected CHECKSIZE + one return" % what)
-            r = re.fullmatch(r"return\s+storage_\s*\[(.+)\]", rest[0], flags=re.S)
-            if not r:
-                raise TranslateError("ReservedVector::%s: return outside the grammar: %r" % (what, rest[0]))
-            out.append(_defn(lean + suf, PI if has_i else P, nat, Sym(what, e).expr(norm(r.group(1))), "ReservedVector::%s%s: slot read" % (what, " const" if suf else "")))
-            out.append(_defn(lean + "Check" + suf, PI if has_i else P, "Bool", checks[0], "ReservedVector::%s%s: what CHECKSIZE asserts" % (what, " const" if suf else "")))
+            paths = rv_pure(what, body, {m.group(1): "i"} if has_i else None)
+            chk = _same(paths, lambda p: p.checks, "ReservedVector::" + what, "the CHECKSIZE conditions")
+            if len(chk) != 1:
+                raise TranslateError("ReservedVector::%s: expected exactly one CHECKSIZE" % what)
+            slot, = _ret(paths, "ReservedVector::" + what, "slot", 1)
+            out.append(_defn(lean + suf, PI if has_i else P, nat, slot, "ReservedVector::%s%s: slot read" % (what, " const" if suf else "")))
+            out.append(_defn(lean + "Check" + suf, PI if has_i else P, "Bool", chk[0], "ReservedVector::%s%s: what CHECKSIZE asserts" % (what, " const" if suf else "")))
 
     accessor(r"operator\[\]", r"size_type\s+(\w+)", "rvIndex", "operator[]", True)
     accessor(r"front", r"", "rvFront", "front", False)
     accessor(r"back", r"", "rvBack", "back", False)
 
-    # at (2): if (cond) throw ...; return storage_[E];
+    # at (2): throws iff ..., otherwise the slot read
     for (m, body), suf in zip(bodies(r"at", r"size_type\s+(\w+)", 2, "at"), ("", "C")):
-        e = env({m.group(1): "i"})
-        r = re.fullmatch(r"\s*if\s*\((.+?)\)\s*throw\s+std::out_of_range\s*\([^;]*\)\s*;\s*return\s+storage_\s*\[(.+?)\]\s*;\s*", body, flags=re.S)
-        if not r:
-            raise TranslateError("ReservedVector::at outside the grammar")
-        out.append(_defn("rvAtThrow" + suf, PI, "Bool", Sym("at", e).expr(norm(r.group(1))), "ReservedVector::at(i)%s throws std::out_of_range iff" % (" const" if suf else "")))
-        out.append(_defn("rvAtIndex" + suf, PI, nat, Sym("at", e).expr(norm(r.group(2))), "ReservedVector::at(i)%s: slot read" % (" const" if suf else "")))
+        paths = rv_pure("at", body, {m.group(1): "i"})
+        thr = [p for p in paths if p.threw]
+        okp = [p for p in paths if not p.threw]
+        if any(p.checks for p in paths):
+            raise TranslateError("ReservedVector::at: CHECKSIZE in at()")
+        out.append(_defn("rvAtThrow" + suf, PI, "Bool", _which(paths, thr, "ReservedVector::at"), "ReservedVector::at(i)%s throws std::out_of_range iff" % (" const" if suf else "")))
+        out.append(_defn("rvAtIndex" + suf, PI, nat, _ret(okp, "ReservedVector::at", "slot", 1)[0], "ReservedVector::at(i)%s: slot read" % (" const" if suf else "")))
 
     # size / empty / capacity / max_size
     for name, lean, ty in (("size", "rvSize", nat), ("empty", "rvEmpty", "Bool"), ("capacity", "rvCapacity", nat), ("max_size", "rvMaxSize", nat)):
         (m, body), = bodies(name, r"", 1, name)
-        out.append(_defn(lean, P, ty, Sym(name, env()).expr(_single_return(body, "ReservedVector::" + name)), "ReservedVector::%s()" % name))
+        own = dict((k, v) for k, v in rv_own.items() if k != name)      # a function is not read through itself
+        e = env()
+        paths = _run("ReservedVector::" + name, body, e, own=own, readonly=tuple(e))
+        if any(p.effects or p.checks for p in paths):
+            raise TranslateError("ReservedVector::%s: effect outside the grammar" % name)
+        out.append(_defn(lean, P, ty, _ret(paths, "ReservedVector::" + name), "ReservedVector::%s()" % name))
 
-    # clear / resize
+    # clear / resize: size_ afterwards
     (m, body), = bodies(r"clear", r"", 1, "clear")
-    sy = Sym("ReservedVector::clear", env())
-    for st in _stmts(body):
-        if not sy.stmt(st):
-            raise TranslateError("ReservedVector::clear: statement outside the grammar: %r" % st)
-    out.append(_defn("rvClearSize", P, nat, sy.env["size_"], "ReservedVector::clear(): size_ afterwards"))
+    paths = rv_run("clear", body)
+    if any(p.effects or p.checks or p.threw for p in paths):
+        raise TranslateError("ReservedVector::clear: effect outside the grammar")
+    out.append(_defn("rvClearSize", P, nat, _tree(paths, lambda p: p.env["size_"]), "ReservedVector::clear(): size_ afterwards"))
     (m, body), = bodies(r"resize", r"size_type\s+(\w+)", 1, "resize")
-    e = env({m.group(1): "i"})
-    checks, rest = split_checks(body, "resize", e)
-    sy = Sym("ReservedVector::resize", e)
-    for st in rest:
-        if not sy.stmt(st):
-            raise TranslateError("ReservedVector::resize: statement outside the grammar: %r" % st)
-    if len(checks) != 1:
+    paths = rv_run("resize", body, {m.group(1): "i"})
+    chk = _same(paths, lambda p: p.checks, "ReservedVector::resize", "the CHECKSIZE conditions")
+    if len(chk) != 1 or any(p.effects or p.threw for p in paths):
         raise TranslateError("ReservedVector::resize: one CHECKSIZE expected")
-    out.append(_defn("rvResizeSize", PI, nat, sy.env["size_"], "ReservedVector::resize(i): size_ afterwards"))
-    out.append(_defn("rvResizeCheck", PI, "Bool", checks[0], "ReservedVector::resize(i): what CHECKSIZE asserts"))
+    out.append(_defn("rvResizeSize", PI, nat, _tree(paths, lambda p: p.env["size_"]), "ReservedVector::resize(i): size_ afterwards"))
+    out.append(_defn("rvResizeCheck", PI, "Bool", chk[0], "ReservedVector::resize(i): what CHECKSIZE asserts"))
 
     # push_back (2) and emplace_back: the slot written and the new size
     def push(body, what, lean):
@@ -1380,46 +1569,53 @@ def _reservedvector(repo, out):
         out.append(_defn(lean + "Index", P, nat, idx, "ReservedVector::%s: slot written" % what))
         out.append(_defn(lean + "Size", P, nat, sy.env["size_"], "ReservedVector::%s: size_ afterwards" % what))
         out.append(_defn(lean + "Check", P, "Bool", checks[0], "ReservedVector::%s: what CHECKSIZE asserts" % what))
-    pb = bodies(r"push_back", r"(?:const\s+value_type\s*&|value_type\s*&&)\s*\w+", 2, "push_back")
-    push(pb[0][1], "push_back(const&)", "rvPush")
-    push(pb[1][1], "push_back(&&)", "rvPushR")
+    pb = bodies(r"push_back", r"(?:const\s+value_type\s*&|value_type\s*&&)\s*(\w+)", 2, "push_back")
+    for (m, body), what, lean in zip(pb, ("push_back(const&)", "push_back(&&)"), ("rvPush", "rvPushR")):
+        paths = rv_run(what, body, {m.group(1): ("entry",)})
+        eff = _same(paths, lambda p: p.effects, "ReservedVector::" + what, "the slot written")
+        chk = _same(paths, lambda p: p.checks, "ReservedVector::" + what, "the CHECKSIZE conditions")
+        if len(eff) != 1 or eff[0][0] != "slotwrite" or len(chk) != 1 or any(p.threw for p in paths):
+            raise TranslateError("ReservedVector::%s: expected one CHECKSIZE and one slot write, got %r / %r" % (what, chk, eff))
+        out.append(_defn(lean + "Index", P, nat, eff[0][1], "ReservedVector::%s: slot written" % what))
+        out.append(_defn(lean + "Size", P, nat, _tree(paths, lambda p: p.env["size_"]), "ReservedVector::%s: size_ afterwards" % what))
+        out.append(_defn(lean + "Check", P, "Bool", chk[0], "ReservedVector::%s: what CHECKSIZE asserts" % what))
     (m, body), = bodies(r"emplace_back", r"Args\s*&&\s*\.\.\.\s*\w+", 1, "emplace_back")
     push(body, "emplace_back", "rvEmplace")
 
-    # pop_back: if (cond) stmt;
+    # pop_back: something is removed iff ..., and then size_ becomes ...
     (m, body), = bodies(r"pop_back", r"", 1, "pop_back")
-    r = re.fullmatch(r"\s*if\s*\((.+)\)\s*([^;{}]+);\s*", body, flags=re.S)
-    if not r:
-        raise TranslateError("ReservedVector::pop_back outside the grammar")
-    sy = Sym("ReservedVector::pop_back", env())
-    cond = sy.expr(norm(r.group(1)))
-    if not sy.stmt(r.group(2)):
-        raise TranslateError("ReservedVector::pop_back: statement outside the grammar: %r" % r.group(2))
-    out.append(_defn("rvPopCond", P, "Bool", cond, "ReservedVector::pop_back(): something is removed iff"))
-    out.append(_defn("rvPopSize", P, nat, sy.env["size_"], "ReservedVector::pop_back(): size_ afterwards when something is removed"))
+    paths = rv_run("pop_back", body)
+    if any(p.effects or p.checks or p.threw for p in paths):
+        raise TranslateError("ReservedVector::pop_back: effect outside the grammar")
+    work = [p for p in paths if p.env["size_"] != "size"]
+    out.append(_defn("rvPopCond", P, "Bool", _which(paths, work, "ReservedVector::pop_back"), "ReservedVector::pop_back(): something is removed iff"))
+    out.append(_defn("rvPopSize", P, nat, _tree(work, lambda p: p.env["size_"]), "ReservedVector::pop_back(): size_ afterwards when something is removed"))
 
     # the iterator ranges: begin/cbegin at offset 0, end/cend/rbegin/crbegin at the generated offset, rend at 0
-    def offset(r, what):
-        r = r.strip()
-        r = re.sub(r"^(?:const_)?reverse_iterator\s*\((.*)\)$", r"\1", r, flags=re.S).strip()
-        mm = re.fullmatch(r"(?:storage_\s*\.\s*c?begin\s*\(\s*\)|c?begin\s*\(\s*\))\s*(?:\+(.+))?", r, flags=re.S)
-        if not mm:
-            raise TranslateError("ReservedVector::%s: return outside the grammar: %r" % (what, r))
-        return Sym(what, env()).expr(norm(mm.group(1))) if mm.group(1) else "0"
     for name, cnt, lean in (("begin", 2, "rvBeginOff"), ("cbegin", 1, "rvCbeginOff"), ("end", 2, "rvEndOff"), ("cend", 1, "rvCendOff"),
                             ("rbegin", 2, "rvRbeginOff"), ("crbegin", 1, "rvCrbeginOff"), ("rend", 2, "rvRendOff"), ("crend", 1, "rvCrendOff")):
         for (m, body), suf in zip(bodies(name, r"", cnt, name), ("", "C")):
-            body = re.sub(r"((?:const_)?reverse_iterator)\s*\{([^{}]*)\}", r"\1(\2)", body)
-            out.append(_defn(lean + suf, P, nat, offset(_single_return(body, "ReservedVector::" + name), name),
+            own = dict((k, v) for k, v in rv_own.items() if k != name)
+            e = env()
+            e["storage_"] = ("storage",)
+            paths = _run("ReservedVector::" + name, body, e, own=own, readonly=tuple(e))
+            if any(p.effects or p.checks for p in paths):
+                raise TranslateError("ReservedVector::%s: effect outside the grammar" % name)
+            out.append(_defn(lean + suf, P, nat, _ret(paths, "ReservedVector::" + name, "storit", 1)[0],
                              "ReservedVector::%s()%s: offset into storage_" % (name, " const" if suf else "")))
 
-    # fill: for (size_type i=0; i<BOUND; ++i) storage_[IDX] = value;
+    # fill: the slots written, in order: round i (0 <= i < bound) writes slot index(i)
     (m, body), = bodies(r"fill", r"const\s+value_type\s*&\s*(\w+)", 1, "fill")
-    r = re.fullmatch(r"\s*for\s*\(\s*size_type\s+(\w+)\s*=\s*0\s*;\s*(\w+)\s*<\s*([^;]+);\s*(?:\+\+\s*\w+|\w+\s*\+\+)\s*\)\s*\{?\s*storage_\s*\[(.+?)\]\s*=\s*%s\s*;\s*\}?\s*" % re.escape(m.group(1)), body, flags=re.S)
-    if not r or r.group(1) != r.group(2):
-        raise TranslateError("ReservedVector::fill outside the grammar")
-    out.append(_defn("rvFillBound", P, nat, Sym("fill", env()).expr(norm(r.group(3))), "ReservedVector::fill: loop bound"))
-    out.append(_defn("rvFillIndex", PI, nat, Sym("fill", env({r.group(1): "i"})).expr(norm(r.group(4))), "ReservedVector::fill: slot written in round i"))
+    if m.group(1) == "i":
+        raise TranslateError("ReservedVector::fill: parameter named i")
+    e = env({m.group(1): ("entry",)})
+    e["storage_"] = ("storage",)
+    paths = _run("ReservedVector::fill", body, e, own=rv_own, readonly=tuple(e), indexed_loops=True)
+    eff = _same(paths, lambda p: p.effects, "ReservedVector::fill", "the effect")
+    if len(eff) != 1 or eff[0][0] != "fill" or any(p.threw or p.checks for p in paths):
+        raise TranslateError("ReservedVector::fill: expected one loop / std::fill writing the argument to consecutive slots, got %r" % (eff,))
+    out.append(_defn("rvFillBound", P, nat, eff[0][1], "ReservedVector::fill: loop bound"))
+    out.append(_defn("rvFillIndex", PI, nat, eff[0][2], "ReservedVector::fill: slot written in round i"))
 
     # hash_value: hash_range(v.storage_.data(), v.storage_.data()+E)
     r = re.search(r"hash_value\s*\(\s*const\s+ReservedVector\s*&\s*(\w+)\s*\)\s*\{\s*return\s+hash_range\s*\(\s*\1\.storage_\.data\(\)\s*,\s*\1\.storage_\.data\(\)\s*\+([^;]+)\)\s*;\s*\}", cls)
